@@ -43,6 +43,9 @@ def one(src):
     elif prop.startswith('S'):
         # third round: worktrees /tmp/wt/S<nn>, stored as <prop>-r7, r8
         prop, k = 'C' + prop[1:], str(int(k) + 6)
+    elif prop.startswith('W'):
+        # sixth round: worktrees /tmp/wt/W<nn>, stored as <prop>-r13, r14
+        prop, k = 'C' + prop[1:], str(int(k) + 12)
     elif prop.startswith('U'):
         # fifth round: worktrees /tmp/wt/U<nn>, stored as <prop>-r11, r12
         prop, k = 'C' + prop[1:], str(int(k) + 10)
@@ -99,7 +102,7 @@ def one(src):
 
 
 def main():
-    srcs = sorted(glob.glob('/tmp/wt/C*/out/ref*') + glob.glob('/tmp/wt/R*/out/ref[0-9]') + glob.glob('/tmp/wt/S*/out/ref[0-9]') + glob.glob('/tmp/wt/T*/out/ref[0-9]') + glob.glob('/tmp/wt/U*/out/ref[0-9]'))
+    srcs = sorted(glob.glob('/tmp/wt/C*/out/ref*') + glob.glob('/tmp/wt/R*/out/ref[0-9]') + glob.glob('/tmp/wt/S*/out/ref[0-9]') + glob.glob('/tmp/wt/T*/out/ref[0-9]') + glob.glob('/tmp/wt/U*/out/ref[0-9]') + glob.glob('/tmp/wt/W*/out/ref[0-9]'))
     if len(sys.argv) > 1:
         srcs = [s for s in srcs if any(a in s for a in sys.argv[1:])]
     with concurrent.futures.ThreadPoolExecutor(6) as ex:
